@@ -2,6 +2,7 @@ import Sm9.Proofs.Pow
 import Sm9.Proofs.Consts
 import Sm9.Proofs.FinalExp
 import Sm9.Proofs.MillerFrobenius
+import Sm9.Proofs.MillerNaf
 /-!
 # C17 — the F_q¹² tower engine and final exponentiation on every element
 Ring and **field** structure of Fq4 = Fq2[v]/(v²−u) and Fq12 = Fq4[w]/(w³−v) on the model's own
@@ -115,5 +116,28 @@ open Miller in
 theorem subfield_factor_killed (κ : Fq2) (hκ : κ ≠ 0) : Fq12.ofFq2 κ ^ ((q ^ 12 - 1) / r) = 1 :=
   ofFq2_pow_final κ hκ
 theorem subfield_order_divides : q ^ 2 - 1 ∣ (q ^ 12 - 1) / r := Miller.fq2_card_dvd
+
+/-! ## the numerator/denominator Miller loop -/
+open Miller in
+theorem eval_tangent_textbook (T : G2) (P : G1) (hz : T.z ≠ 0) (hy : T.y ≠ 0) :
+    (G2m.eval_g_tangent T P).2 ≠ 0 ∧
+    (G2m.eval_g_tangent T P).2 = Fq12.ofFq2 (T.z*T.z*T.z*T.y) * Fq12.w ^ 3 ∧
+    (G2m.eval_g_tangent T P).1 = -((G2m.eval_g_tangent T P).2 *
+       lineSpec (T.x/T.z^2) (T.y/T.z^3) (3*(T.x/T.z^2)^2 / (2*(T.y/T.z^3))) P.x P.y) :=
+  eval_g_tangent_line T P hz hy
+open Miller in
+theorem eval_line_textbook (T R : G2) (P : G1) (hz : T.z ≠ 0) (hRz : R.z ≠ 0)
+    (hx : T.x/T.z^2 ≠ R.x/R.z^2) :
+    (G2m.eval_g_line T R P).2 ≠ 0 ∧
+    (G2m.eval_g_line T R P).1 = -((G2m.eval_g_line T R P).2 *
+       lineSpec (T.x/T.z^2) (T.y/T.z^3)
+         ((R.y/R.z^3 - T.y/T.z^3)/(R.x/R.z^2 - T.x/T.z^2)) P.x P.y) :=
+  ⟨(eval_g_line_line T R P hz hRz hx).1, (eval_g_line_line T R P hz hRz hx).2.2⟩
+open Miller in
+theorem signed_chain_miller_textbook (P : G1) (xQ yQ : Fq2) (hQ : yQ * yQ = xQ * xQ * xQ + b2)
+    (k : Nat) (hk : twPt (xQ, yQ) = k • twPt genXY) :
+    G2m.miller_loop (⟨xQ, yQ, 1⟩ : G2) P = .ok (-specMillerNaf P.x P.y xQ yQ) :=
+  naf_miller_eq_spec_G2 P xQ yQ hQ k hk
+theorem neg_one_killed : (-1 : Fq12) ^ ((q ^ 12 - 1) / r) = 1 := Miller.neg_one_pow_final
 
 end Sm9.C17
